@@ -17,13 +17,22 @@ def build():
     # acquire: loop invariant + the safety obligations
     p.before("    pub fn acquire(&self) {", "    #[verifier::exec_allows_no_decreases_clause]")
     p.after("    pub fn acquire(&self) {", "\n        broadcast use ival_isize;")
-    if p.has("        while *count <= 0"):  # the loop needs an (empty) invariant; if the loop is gone nothing is inserted
-        p.after("        while *count <= 0", "\n            invariant true,\n       ")
-    p.before("        *count -= 1;",
-             "        let ghost verif_pre = ival(gref(&count));\n"
-             "        assert(ival(gref(&count)) > 0); // @ob C19.acquire.permit_available_when_taken")
-    p.after("        *count -= 1;",
-            "\n        assert(ival(gref(&count)) == verif_pre - 1); // @ob C19.acquire.takes_exactly_one_permit")
+    # the guard variable of `acquire` may be renamed: find it from the decrement statement
+    import re
+    from vf.verus_run import LostAnchor
+    m = re.search(r"^[ \t]*\*(\w+) -= 1;", p.base, re.M)
+    if not m:
+        raise LostAnchor("no `*<guard> -= 1;` statement in semaphore.rs (acquire)")
+    var = m.group(1)
+    dec = m.group(0)
+    loop_head = "        while *%s <= 0" % var
+    if p.has(loop_head):  # the loop needs an (empty) invariant; a loop of another shape is reported as undecided by the runner
+        p.after(loop_head, "\n            invariant true,\n       ")
+    p.before(dec,
+             "        let ghost verif_pre = ival(gref(&%s));\n"
+             "        assert(ival(gref(&%s)) > 0); // @ob C19.acquire.permit_available_when_taken" % (var, var))
+    p.after(dec,
+            "\n        assert(ival(gref(&%s)) == verif_pre - 1); // @ob C19.acquire.takes_exactly_one_permit" % var)
     p.after("    pub fn release(&self) {", "\n        broadcast use ival_isize;")
     # Verus demands opens_invariants/no_unwind clauses on Drop::drop that vstd's Result::unwrap cannot meet:
     # the two one-statement Drop impls are excluded from verification and checked textually below.
